@@ -1042,85 +1042,126 @@ func ruleExtends(c *Ctx) {
 	}
 	c.site(1)
 	name := fname(fn)
-	var rec *ssa.Call
-	for _, ci := range callsIn(fn) {
-		if callee := staticCallee(ci.Common()); callee == fn {
-			rec, _ = ci.(*ssa.Call)
+	// the resolution may be split into the lookup and a recursive helper with an accumulator: look at the whole region
+	region := c.regionCalls(fn, nil)
+	fns := []*ssa.Function{fn}
+	inRegion := map[*ssa.Function]bool{fn: true}
+	for _, rc := range region {
+		if !inRegion[rc.fn] {
+			inRegion[rc.fn] = true
+			fns = append(fns, rc.fn)
 		}
 	}
 	problem := ""
-	if rec == nil {
-		problem = "no recursive lookup of the parent chord: `extends` is not inherited"
-	} else {
-		// argument: c.Extends
-		if n, _, ok := loadedField(rec.Call.Args[1]); !ok || n != "Extends" {
-			// value may be copied into a local first
-			ac := &affCtx{c: c, fn: fn, alias: map[ssa.Value]string{}}
-			if !strings.HasSuffix(ac.describe(rec.Call.Args[1]), ".Extends") {
-				problem = "the recursive lookup is not made with c.Extends"
-			}
-		}
-		// its result #0 is appended
-		var parent ssa.Value
-		for _, r := range *rec.Referrers() {
-			if ex, ok := r.(*ssa.Extract); ok && ex.Index == 0 {
-				parent = ex
-			}
-		}
-		var parentAppend *ssa.Call
-		if parent != nil {
-			for _, r := range *parent.Referrers() {
-				if call, ok := r.(*ssa.Call); ok && calleeName(&call.Call) == "builtin.append" && call.Call.Args[1] == parent {
-					parentAppend = call
-				}
-			}
-		}
-		if parentAppend == nil {
-			problem = "the parent's attributes are looked up but not appended to the result: inherited notes are dropped"
-		}
-		// own attributes: append in a loop over c.Attributes of a lookup in m.attributes
-		var ownAppend *ssa.Call
-		for _, ci := range callsIn(fn) {
+	// (1) the own attributes: an append of m.attributes[a] in a loop over all of c.Attributes
+	var ownAppend *ssa.Call
+	var F *ssa.Function
+	for _, f := range fns {
+		for _, ci := range callsIn(f) {
 			call, ok := ci.(*ssa.Call)
-			if !ok || calleeName(&call.Call) != "builtin.append" || call == parentAppend {
+			if !ok || calleeName(&call.Call) != "builtin.append" {
 				continue
 			}
 			for _, v := range variadicValues(call.Call.Args[1]) {
 				if lk, ok := v.(*ssa.Lookup); ok {
 					if n, _, ok := loadedField(lk.X); ok && n == "attributes" {
-						ownAppend = call
+						ownAppend, F = call, f
 					}
 				}
 			}
 		}
-		switch {
-		case ownAppend == nil:
-			problem = "the chord's own attributes are not appended from m.attributes"
-		case !inLoop(ownAppend.Block()) || !c.loopCoversSlice(ownAppend.Block()):
-			problem = "the chord's own attributes are not all visited"
-		case parentAppend != nil && !parentAppend.Block().Dominates(ownAppend.Block()) && parentAppend.Block() != ownAppend.Block():
-			// parent append is conditional (if extends != ""): it must come before the own loop on the path where it runs
-			if !reachableBlock(parentAppend.Block(), ownAppend.Block()) {
-				problem = "inherited attributes are not placed before the chord's own"
+	}
+	// (2) the inherited attributes: a recursive call (to the entry point or to the helper itself) made for the parent
+	isRecursive := func(v ssa.Value) bool {
+		call, ok := v.(*ssa.Call)
+		if !ok {
+			return false
+		}
+		callee := staticCallee(&call.Call)
+		return callee != nil && (unbound(callee) == fn || (F != nil && unbound(callee) == F)) && call.Parent() == F
+	}
+	var rec *ssa.Call
+	if F != nil {
+		for _, ci := range callsIn(F) {
+			if call, ok := ci.(*ssa.Call); ok && isRecursive(call) {
+				rec = call
 			}
 		}
-		// the returned slice flows from these appends
+	}
+	switch {
+	case ownAppend == nil:
+		problem = "the chord's own attributes are not appended from m.attributes"
+	case !inLoop(ownAppend.Block()) || !c.loopCoversSlice(ownAppend.Block()):
+		problem = "the chord's own attributes are not all visited"
+	case rec == nil:
+		problem = "no recursive lookup of the parent chord: `extends` is not inherited (or only one level deep)"
+	default:
+		// the recursion is made for c.Extends (by name) or for the chord found under that name
+		okArg := false
+		for _, a := range rec.Call.Args[1:] {
+			ac := &affCtx{c: c, fn: F, alias: map[ssa.Value]string{}}
+			d := ac.describe(a)
+			if strings.HasSuffix(d, ".Extends") || (strings.Contains(d, ".chords[") && strings.Contains(d, ".Extends]")) {
+				okArg = true
+			}
+		}
+		if !okArg {
+			problem = "the recursive lookup is not made with c.Extends"
+		}
+		// inherited first: what the own loop appends to already contains the parent's attributes
+		l := enclosingRangeLoop(ownAppend.Block())
+		acc := ownAppend.Call.Args[0]
+		inherited := false
+		if phi, ok := acc.(*ssa.Phi); ok && l != nil {
+			for i, e := range phi.Edges {
+				if !l.blocks[phi.Block().Preds[i]] && dataDependsOn(e, isRecursive) {
+					inherited = true
+				}
+			}
+		}
+		if problem == "" && !inherited {
+			problem = "the parent's attributes are not in the result before the chord's own are appended: inherited notes are dropped or come last"
+		}
+		// the collected list is what is returned
 		if problem == "" {
+			isOwn := func(v ssa.Value) bool { return v == ssa.Value(ownAppend) }
 			okRet := false
-			for _, r := range returnsOf(fn) {
-				if b, ok := constBool(r.Results[1]); ok && b {
-					for _, leaf := range phiLeaves(r.Results[0]) {
-						if leaf == ssa.Value(ownAppend) || leaf == ssa.Value(parentAppend) {
-							okRet = true
-						}
-						if ph, ok := r.Results[0].(*ssa.Phi); ok && ph != nil {
-							okRet = true
-						}
+			for _, r := range returnsOf(F) {
+				if dataDependsOn(retVal(r, 0), isOwn) {
+					okRet = true
+				}
+			}
+			if F != fn {
+				toHelper := func(v ssa.Value) bool {
+					call, ok := v.(*ssa.Call)
+					if !ok {
+						return false
+					}
+					callee := staticCallee(&call.Call)
+					return callee != nil && unbound(callee) == F
+				}
+				viaHelper := false
+				for _, r := range returnsOf(fn) {
+					if b, ok := constBool(retVal(r, 1)); ok && b && dataDependsOn(retVal(r, 0), toHelper) {
+						viaHelper = true
 					}
 				}
+				okRet = okRet && viaHelper
 			}
 			if !okRet {
 				problem = "the successful return does not return the collected attributes"
+			}
+		}
+		// no memo: a cached slice that children append to is shared between symbols
+		if problem == "" {
+			for _, f := range fns {
+				allInstrs(f, func(in ssa.Instruction) {
+					if mu, ok := in.(*ssa.MapUpdate); ok {
+						if _, _, isField := loadedField(mu.Map); isField {
+							problem = "the resolution writes into a table of the Map (a cache): slices handed out earlier can be appended to in place by later resolutions"
+						}
+					}
+				})
 			}
 		}
 	}
@@ -1138,26 +1179,66 @@ func ruleBuilder(c *Ctx) {
 		c.site(1)
 		name := fname(fn)
 		keys := map[string]bool{}
-		allInstrs(fn, func(in ssa.Instruction) {
-			mu, ok := in.(*ssa.MapUpdate)
-			if !ok || !inLoop(mu.Block()) {
-				return
+		// the indexing may sit in helpers of Build (attributeIndex / chordIndex): look at the whole region
+		regionFns := []*ssa.Function{fn}
+		seenFn := map[*ssa.Function]bool{fn: true}
+		region := c.regionCalls(fn, nil)
+		for _, rc := range region {
+			if !seenFn[rc.fn] {
+				seenFn[rc.fn] = true
+				regionFns = append(regionFns, rc.fn)
 			}
-			if typeName(mu.Value.Type()) != "chord.Chord" {
-				return
-			}
-			ac := &affCtx{c: c, fn: fn, alias: map[ssa.Value]string{}}
-			d := ac.describe(mu.Key)
-			switch {
-			case strings.HasSuffix(d, ".Meta.Display"):
-				keys["display"] = true
-			case strings.HasSuffix(d, ".Name"):
-				keys["name"] = true
-			}
-		})
+		}
+		for _, rf := range regionFns {
+			allInstrs(rf, func(in ssa.Instruction) {
+				mu, ok := in.(*ssa.MapUpdate)
+				if !ok || !inLoop(mu.Block()) {
+					return
+				}
+				if typeName(mu.Value.Type()) != "chord.Chord" {
+					return
+				}
+				ac := &affCtx{c: c, fn: rf, alias: map[ssa.Value]string{}}
+				// the key, or - when the two keys are written by a loop over a small array of them - each element of that array
+				var ds []string
+				ds = append(ds, ac.describe(mu.Key))
+				var arr ssa.Value
+				if ia := indexOfLoad(mu.Key); ia != nil {
+					arr = ia.X
+				} else if ix, ok := mu.Key.(*ssa.Index); ok {
+					// range over an array value: the array is copied out of its local first
+					arr = ix.X
+					if ld, ok := arr.(*ssa.UnOp); ok && ld.Op == token.MUL {
+						arr = ld.X
+					}
+				}
+				if arr != nil {
+					if al, ok := arr.(*ssa.Alloc); ok {
+						for _, r := range *al.Referrers() {
+							if ea, ok := r.(*ssa.IndexAddr); ok {
+								for _, rr := range *ea.Referrers() {
+									if st, ok := rr.(*ssa.Store); ok && st.Addr == ssa.Value(ea) {
+										ds = append(ds, ac.describe(st.Val))
+									}
+								}
+							}
+						}
+					}
+				}
+				for _, d := range ds {
+					switch {
+					case strings.HasSuffix(d, ".Meta.Display"):
+						keys["display"] = true
+					case strings.HasSuffix(d, ".Name"):
+						keys["name"] = true
+					}
+				}
+			})
+		}
 		c.check(keys["name"] && keys["display"], name, c.pos(fn.Pos()), name, "every chord stored under its name and its display", name+": chords are no longer indexed by both name and display symbol (one of the two spellings stops working)")
 		// result goes through NewMap (validation)
-		c.check(len(callsTo(fn, "chord.NewMap")) == 1, name+"|NewMap", c.pos(fn.Pos()), name, "built through NewMap (validated)", "Builder.Build no longer goes through NewMap: references are not validated")
+		nNew := len(findRegion(region, func(ci ssa.CallInstruction) bool { return calleeName(ci.Common()) == "chord.NewMap" }))
+		c.check(nNew == 1, name+"|NewMap", c.pos(fn.Pos()), name, "built through NewMap (validated)", "Builder.Build no longer goes through NewMap: references are not validated")
 	}
 	nb := c.fn("cmd", "newChordBuilder")
 	if nb == nil {
@@ -1166,32 +1247,30 @@ func ruleBuilder(c *Ctx) {
 	}
 	c.site(1)
 	name := fname(nb)
-	ba := firstCall(nb, staticOf("chord.BasicAttributes"))
-	bc := firstCall(nb, staticOf("chord.BasicChords"))
-	var opens []ssa.CallInstruction
-	for _, ci := range callsIn(nb) {
-		if calleeName(ci.Common()) == "util.OpenAndParse" {
-			opens = append(opens, ci)
-		}
+	// the loading steps may sit in helpers (addBasicDefinitions / addAttributeFiles / ...): look at the whole region
+	nbRegion := c.regionCalls(nb, nil)
+	findNB := func(name string) []rcall {
+		return findRegion(nbRegion, func(ci ssa.CallInstruction) bool { return calleeName(ci.Common()) == name })
 	}
+	bas, bcs, opens := findNB("chord.BasicAttributes"), findNB("chord.BasicChords"), findNB("util.OpenAndParse")
 	problem := ""
 	switch {
-	case ba == nil || bc == nil:
+	case len(bas) == 0 || len(bcs) == 0:
 		problem = "built-in attributes or chords are not loaded"
 	case len(opens) != 2:
 		problem = fmt.Sprintf("%d user-file loaders, want 2 (--attr and --chord)", len(opens))
 	default:
 		for _, o := range opens {
-			if !dominatesInstr(ba, o) || !dominatesInstr(bc, o) {
+			if !regionDominates(bas[0].li(), o.li()) || !regionDominates(bcs[0].li(), o.li()) {
 				problem = "user files are loaded before the built-in definitions: user entries cannot override built-ins"
 			}
-			if !c.errorReturned(o.(*ssa.Call)) {
+			if !c.errorReturnedUp(o) {
 				problem = "an error while reading a user dictionary is not returned"
 			}
 		}
 		// each loader's parser matches its flag
 		for _, o := range opens {
-			pf := funcOfValue(o.Common().Args[1])
+			pf := funcOfValue(o.call.Common().Args[1])
 			if pf == nil {
 				continue
 			}
